@@ -183,6 +183,22 @@ async def link_wrap(inner, pre, post):
     return r
 
 
+async def _one_trap(tag):
+    await trap(tag)
+
+
+async def link_wrap_loop(inner, pre, post):
+    """one await site visited several times, each time with a *fresh* awaitable of the same (not weakly
+    referenceable) kind: first around short-lived coroutines, finally around the rest of the chain"""
+    todo = [_one_trap(("wrap_loop", "pre", i)) for i in range(pre + 1)] + [inner]
+    r = None
+    for x in todo:
+        r = await AwWrap(x)
+    for i in range(post):
+        await trap(("wrap_loop", "post", i))
+    return r
+
+
 async def link_awgen(inner, pre, post):
     for i in range(pre):
         await trap(("awgen", "pre", i))
@@ -284,7 +300,7 @@ async def link_anext_default(inner, pre, post):
 
 
 CO_LINKS = {
-    "co": link_co, "gc": link_gc, "wrap": link_wrap, "awgen": link_awgen, "anext": link_anext,
+    "co": link_co, "gc": link_gc, "wrap": link_wrap, "wrap_loop": link_wrap_loop, "awgen": link_awgen, "anext": link_anext,
     "asend": link_asend, "afor": link_afor, "athrow": link_athrow, "aclose": link_aclose,
     "asend_payload": link_asend_payload,
 }
